@@ -417,6 +417,11 @@ func (s *Solver) CheckT(ms int, extra ...*sym.Term) Result {
 	if len(extra) > 0 && r != Sat {
 		s.Pop()
 	}
+	if hasErr {
+		// z3 drops a command it reports an error for and carries on: from here on its assertion stack may
+		// be weaker than the one recorded in s.levels. Start a fresh process and replay the recorded stack.
+		s.restart()
+	}
 	// when Sat with extras the temporary level is kept so the caller can read
 	// the model; caller must call EndModel.
 	s.pendingPop = len(extra) > 0 && r == Sat
